@@ -2789,6 +2789,7 @@ func ruleSchemaExtForm(c *Ctx) []Obligation {
 		con := fmt.Sprintf("build: extension hand-over #%d is made for a keyword of the form prefix:name", n)
 		exact, loose := false, ""
 		nonEmpty := 0
+		piecesSeen := map[int64]bool{}
 		colon := func(v ssa.Value) bool { s, isS := constString(v); return isS && s == ":" }
 		for _, g := range guardsAt(call.Block()) {
 			if !g.Branch {
@@ -2817,7 +2818,11 @@ func ruleSchemaExtForm(c *Ctx) []Obligation {
 						if ld, isL := x.X.(*ssa.UnOp); isL {
 							if ia, isIA := ld.X.(*ssa.IndexAddr); isIA {
 								if sp, isSp := ia.X.(*ssa.Call); isSp && calleeIs(sp, "strings", "Split") {
-									nonEmpty++
+									// the two sides of the colon: pieces 0 and 1, each once
+									if k, isK := constInt(ia.Index); isK && !piecesSeen[k] {
+										piecesSeen[k] = true
+										nonEmpty++
+									}
 								}
 							}
 						}
@@ -3783,6 +3788,13 @@ func errFanoutOnce(c *Ctx) []Obligation {
 			})
 			if !elem {
 				return
+			}
+			// a test whether the value can be compared at all may stand in front of the scan — taken the right way
+			for _, g := range guardsAt(bo.Block()) {
+				gc, gb := stripNot(g.Cond, g.Branch)
+				if call, isC := gc.(*ssa.Call); isC && call.Call.IsInvoke() && call.Call.Method.Name() == "Comparable" && !gb {
+					return
+				}
 			}
 			for _, r := range refsOf(bo) {
 				ifi, isIf := r.(*ssa.If)
